@@ -99,8 +99,15 @@ def havoc_value(eng, name, v, st):
             n = z3.Int(fresh_name(name + '.n'))
             st.assume(n >= 0)
             from . import kinds
-            f = z3.Function(fresh_name(name), z3.IntSort(), kinds.OBJ_SORT)
-            return new_ref(st, SymListV(n, lambda i, f=f: f(to_z3(i)), 'obj', o.origin))
+            if isinstance(o, SymListV):
+                elem = o.elem
+            elif o.items and all(is_z3(x) and x.sort() == kinds.OBJ_SORT for x in o.items):
+                elem = 'obj'
+            else:
+                elem = eng.havoc_kinds.get(name, 'real')      # an (initially empty) accumulator list: numbers unless the contract says otherwise
+            sort = {'real': z3.RealSort(), 'int': z3.IntSort(), 'bool': z3.BoolSort()}.get(elem, kinds.OBJ_SORT)
+            f = z3.Function(fresh_name(name), z3.IntSort(), sort)
+            return new_ref(st, SymListV(n, lambda i, f=f: f(to_z3(i)), elem, o.origin))
     if isinstance(v, tuple):
         return tuple(havoc_value(eng, '%s.%d' % (name, k), x, st) for k, x in enumerate(v))
     if isinstance(v, Opt):
@@ -197,9 +204,25 @@ def invariant_for(eng, s, it, st):
     # exit
     st_x = st_h
     st_x.assume(le(hi, idx))
+    st_x.env[idx_name] = idx
     eng.cur_stmt = s
     if eng.feasible(st_x):
+        run_ghosts(eng, k, st_x)
         yield st_x, None
+
+
+def run_ghosts(eng, k, st):
+    """ghost(after_loop=k, lambda: <lemma applications>) clauses: premises become obligations, conclusions are assumed"""
+    for cl in eng.ghosts.get(k, []):
+        lam = cl['args'][0]
+        saved_funcs, saved_mode = eng.spec_funcs, eng.ghost_mode
+        eng.spec_funcs = dict(eng.inv_funcs)
+        eng.ghost_mode = True
+        try:
+            for v, _ in calls.call_lambda(eng, FnV('lambda', '<ghost>', lam.node, {}), [], st):
+                break
+        finally:
+            eng.spec_funcs, eng.ghost_mode = saved_funcs, saved_mode
 
 
 def ex_while(eng, s, st):
